@@ -28,8 +28,10 @@ C02_VOCAB(V, TAGS, NSS, ATTRS, VALS)
 #define M_ZZ (B(A_ZZ) | B(A_TYPE))
 #define ROOT { -1, T_PRESENCE, 255, M_ROOT, 255, 0, 255, 0, 0 }
 #define N(parent, tag, ns, mask) { parent, tag, ns, mask, 255, 0, 255, 0, 0 }
+#define NT(parent, tag, ns, mask, ft) { parent, tag, ns, mask, 255, 0, 255, 0, ft }
+#define NFT(parent, tag, ns, mask, fa1, fl1, fa2, fl2, ft) { parent, tag, ns, mask, fa1, fl1, fa2, fl2, ft }
 #define NF(parent, tag, ns, mask, fa1, fl1, fa2, fl2) { parent, tag, ns, mask, fa1, fl1, fa2, fl2, 0 }
-enum { S_EMPTY, S_BASIC, S_BASIC_DUP, S_MUC, S_MUCUSER, S_MUCUSER_DUP, S_CAPS, S_CAPS_VALID, S_VCARD, S_VCARD_NOPHOTO, S_MOVED_IDLE_MIX, S_ADDRESSES, S_ADDRESSES_FOREIGN, S_ERROR, S_EXT, S_LANG, S_COUNT };
+enum { S_EMPTY, S_BASIC, S_BASIC_DUP, S_MUC, S_MUCUSER, S_MUCUSER_DUP, S_CAPS, S_CAPS_VALID, S_VCARD, S_VCARD_NOPHOTO, S_MOVED_IDLE_MIX, S_ADDRESSES, S_ADDRESSES_FOREIGN, S_ERROR, S_EXT, S_LANG, F_BASIC, F_MUC, F_MUCUSER, F_CAPS, F_VCARD, F_MOVED_MIX, F_IDLE, F_ADDRESSES, F_EXT, S_COUNT };
 static const C02ShapeNode SHAPES[S_COUNT][C02_MAXNODES] = {
     /* EMPTY */ { ROOT, C02_END },
     /* BASIC */ { ROOT, N(0, T_SHOW, N_NONE, M_ZZ), N(0, T_STATUS, N_NONE, M_ZZ), N(0, T_PRIORITY, N_NONE, M_ZZ), C02_END },
@@ -47,6 +49,17 @@ static const C02ShapeNode SHAPES[S_COUNT][C02_MAXNODES] = {
     /* ERROR */ { ROOT, N(0, T_ERROR, N_NONE, M_ERR), N(1, T_INF, N_STANZA, M_ZZ), C02_END },
     /* EXT */ { ROOT, N(0, T_ZZ, N_XY, M_ZZ), N(1, T_ZZ, N_NONE, M_ZZ), N(0, T_X, N_XY, M_ZZ), C02_END },
     /* LANG */ { { -1, T_PRESENCE, 255, M_ROOT_LANG, 255, 0, 255, 0, 0 }, C02_END },
+    // F_*: shapes for the two-pass run. Fields whose EMPTINESS decides whether toXml writes an element carry text/attributes of fixed length (arbitrary units), so that the
+    // serialized tree has a concrete structure except for at most one optional trailing element; everything else stays symbolic
+    /* F_BASIC */ { ROOT, NT(0, T_SHOW, N_NONE, M_ZZ, 1), NT(0, T_STATUS, N_NONE, M_ZZ, 2), N(0, T_PRIORITY, N_NONE, M_ZZ), C02_END },
+    /* F_MUC */ { ROOT, N(0, T_X, N_MUC, M_ZZ), NT(1, T_PASSWORD, N_NONE, M_ZZ, 2), C02_END },
+    /* F_MUCUSER */ { ROOT, N(0, T_X, N_MUCUSER, M_ZZ), NF(1, T_ITEM, N_NONE, M_ITEM, A_JID, 3, A_NICK, 2), NF(2, T_ACTOR, N_NONE, M_JID, A_JID, 2, 255, 0), NT(2, T_REASON, N_NONE, M_ZZ, 2), N(1, T_STATUS, N_NONE, M_CODE), C02_END },
+    /* F_CAPS */ { ROOT, NF(0, T_C, N_CAPS, M_CAPS, A_NODE, 2, A_HASH, 3), C02_END },
+    /* F_VCARD */ { ROOT, N(0, T_X, N_VCARD, M_ZZ), N(1, T_PHOTO, N_NONE, M_ZZ), C02_END },
+    /* F_MOVED_MIX */ { ROOT, N(0, T_MOVED, N_MOVED, M_ZZ), NT(1, T_OLDJID, N_NONE, M_ZZ, 2), N(0, T_MIX, N_MIXP, M_ZZ), NT(3, T_JID, N_NONE, M_ZZ, 3), NT(3, T_NICK, N_NONE, M_ZZ, 1), C02_END },
+    /* F_IDLE */ { ROOT, N(0, T_IDLE, N_IDLE, M_IDLE), C02_END },
+    /* F_ADDRESSES */ { ROOT, N(0, T_ADDRESSES, N_ADDR, M_ZZ), NF(1, T_ADDRESS, N_NONE, M_ADDR, A_TYPE, 2, A_JID, 3), N(0, T_ADDRESSES, N_XY, M_ZZ), C02_END },
+    /* F_EXT */ { ROOT, N(0, T_ZZ, N_XY, M_ZZ), N(1, T_ZZ, N_NONE, M_ZZ), N(0, T_X, N_XY, M_ZZ), C02_END },
 };
 #define WARM() vp_c02_init(); c02_warm_QXmppStanza(); c02_warm_QXmppPresence(); c02_warm_QXmppMucIq();
 static void build(C02Node *nodes) { unsigned si = vp_case_u(0, 256); vp_assume(si < S_COUNT); c02BuildShape(V, SHAPES, si, nodes); }
